@@ -11,14 +11,17 @@ EXTENDS MonBase, TSBytes
 VARIABLES l, st
 vars == <<l, st>>
 
-Init == l = 1 /\ st = [tr |-> "none", op |-> "none", pid |-> -1, err |-> "nil", started |-> FALSE, at |-> 0]
+Init == l = 1 /\ st = [tr |-> "none", op |-> "none", pid |-> -1, err |-> "nil", started |-> FALSE, at |-> 0, skip |-> FALSE]
 
 V(kind, s, e, more) ==
   [prop |-> "C04", kind |-> kind, trace |-> s.tr, at |-> s.at, op |-> s.op, err |-> s.err] @@ more
 
+\* a call during which the io.Writer itself failed (fault-injection histories) is C18's business: what it left in the output is not
+\* judged here - every call after it is (the Muxer must be exact again once the writer is)
 OnCall(s, e, i) ==
-  LET s1 == [s EXCEPT !.op = e.op, !.pid = e.pid, !.err = e.err, !.started = FALSE, !.at = i]
-      s2 == RepIf(e.part # 0, s1, V("partial-packet", s1, e, [part |-> e.part, delta |-> e.delta]))
+  LET s1 == [s EXCEPT !.op = e.op, !.pid = e.pid, !.err = e.err, !.started = FALSE, !.at = i, !.skip = Get(e, "wfail", FALSE)]
+  IN IF s1.skip THEN s1 ELSE
+  LET s2 == RepIf(e.part # 0, s1, V("partial-packet", s1, e, [part |-> e.part, delta |-> e.delta]))
       s3 == RepIf(e.n # e.delta, s2, V("count-mismatch", s2, e, [n |-> e.n, delta |-> e.delta]))
   IN s3
 
@@ -53,9 +56,9 @@ OnPkt(s, e, i) ==
      ELSE Rep(s1, V(pr[1], s, e, [pid |-> IF Len(b) = 188 THEN h.pid ELSE -1, pkt |-> i]))
 
 Step(s, e, i) ==
-  CASE e.ev = "reset" -> [tr |-> e.t, op |-> "none", pid |-> -1, err |-> "nil", started |-> FALSE, at |-> i]
+  CASE e.ev = "reset" -> [tr |-> e.t, op |-> "none", pid |-> -1, err |-> "nil", started |-> FALSE, at |-> i, skip |-> FALSE]
     [] e.ev = "call" -> OnCall(s, e, i)
-    [] e.ev = "pkt" -> OnPkt(s, e, i)
+    [] e.ev = "pkt" -> IF s.skip THEN s ELSE OnPkt(s, e, i)
     [] OTHER -> s
 
 Next == /\ l <= Len(Trace)
